@@ -1,11 +1,106 @@
 /-
-  C11 — Equal is JSON value equality.  Property theorems only.
+  C11 — Equal is JSON value equality.  Property theorems only (helper lemmas: JSV/Proofs/Equal.lean).
 -/
-import JSV.Model.Equal
+import JSV.Proofs.Equal
 namespace JSV.C11
 open JSV GoVal
 
-/-- placeholder while the pipeline is brought up; replaced by `equal_iff` -/
-theorem eqLeaf_invalid : Go.eqLeaf .invalid .invalid = .ok true := rfl
+/-- Equal on two representations = JSON equality of the values they carry. -/
+theorem equal_iff (x y : GoVal) (jx jy : Json)
+    (hx : GoVal.denote x = some jx) (hy : GoVal.denote y = some jy) :
+    Go.equalValue x y = .ok (Json.eqv jx jy) :=
+  Go.equalValue_eq x y jx jy hx hy
+
+theorem eqv_refl (j : Json) (h : Json.WF j = true) : Json.eqv j j = true :=
+  Json.eqv_refl_of_WF j h
+
+theorem eqv_symm (a b : Json) (ha : Json.WF a = true) (hb : Json.WF b = true) :
+    Json.eqv a b = Json.eqv b a :=
+  Json.eqv_symm_of_WF a b ha hb
+
+theorem eqv_trans (a b c : Json) (_ha : Json.WF a = true) (_hb : Json.WF b = true)
+    (_hc : Json.WF c = true) :
+    Json.eqv a b = true → Json.eqv b c = true → Json.eqv a c = true :=
+  Json.eqv_trans_imp a b c
+
+/-- consequences for the Go function on its domain (values that denote well-formed JSON) -/
+theorem equal_refl (x : GoVal) (j : Json) (hx : GoVal.denote x = some j) (hw : Json.WF j = true) :
+    Go.equalValue x x = .ok true := by
+  rw [equal_iff x x j j hx hx, eqv_refl j hw]
+
+theorem equal_symm (x y : GoVal) (jx jy : Json)
+    (hx : GoVal.denote x = some jx) (hy : GoVal.denote y = some jy)
+    (wx : Json.WF jx = true) (wy : Json.WF jy = true) :
+    Go.equalValue x y = Go.equalValue y x := by
+  rw [equal_iff x y jx jy hx hy, equal_iff y x jy jx hy hx, eqv_symm jx jy wx wy]
+
+theorem equal_trans (x y z : GoVal) (jx jy jz : Json)
+    (hx : GoVal.denote x = some jx) (hy : GoVal.denote y = some jy) (hz : GoVal.denote z = some jz)
+    (wx : Json.WF jx = true) (wy : Json.WF jy = true) (wz : Json.WF jz = true) :
+    Go.equalValue x y = .ok true → Go.equalValue y z = .ok true → Go.equalValue x z = .ok true := by
+  rw [equal_iff x y jx jy hx hy, equal_iff y z jy jz hy hz, equal_iff x z jx jz hx hz]
+  intro h1 h2
+  rw [eqv_trans jx jy jz wx wy wz (Res.ok.inj h1) (Res.ok.inj h2)]
+
+/-- null only equals null; a number never equals a string with the same digits; etc. -/
+theorem eqv_null_iff (j : Json) : Json.eqv .null j = true ↔ j = .null := by
+  cases j <;> simp [Json.eqv]
+
+/-- a number never equals a string, whatever the digits -/
+theorem eqv_num_str (q : Rat) (s : String) : Json.eqv (.num q) (.str s) = false := by
+  simp [Json.eqv]
+
+/-! ## The hypotheses are satisfiable on non-trivial values
+
+Three representations of `{"a":[1,1.5,null],"b":"x","c":2}`: different key orders, different numeric
+kinds, pointers and interfaces in different places. -/
+
+def exX : GoVal :=
+  .map [("a", .iface (.list [.int 1, .ptr (.float (mkRat 3 2)), .invalid])), ("b", .str "x"),
+        ("c", .jnum (some 2) "2.0")]
+def exY : GoVal :=
+  .ptr (.map [("c", .uint 2), ("b", .iface (.str "x")),
+              ("a", .list [.float 1, .jnum (some (mkRat 6 4)) "1.50", .ptr .invalid])])
+def exZ : GoVal :=
+  .iface (.map [("b", .str "x"), ("a", .iface (.list [.uint 1, .float (mkRat 3 2), .iface .invalid])),
+                ("c", .int 2)])
+def exJX : Json := .obj [("a", .arr [.num 1, .num (mkRat 3 2), .null]), ("b", .str "x"), ("c", .num 2)]
+def exJY : Json := .obj [("c", .num 2), ("b", .str "x"), ("a", .arr [.num 1, .num (mkRat 6 4), .null])]
+def exJZ : Json := .obj [("b", .str "x"), ("a", .arr [.num 1, .num (mkRat 3 2), .null]), ("c", .num 2)]
+
+example : GoVal.denote exX = some exJX := by rfl
+example : GoVal.denote exY = some exJY := by rfl
+example : GoVal.denote exZ = some exJZ := by rfl
+example : Json.WF exJX = true := by decide
+example : Json.WF exJY = true := by decide
+example : Json.WF exJZ = true := by decide
+example : Json.eqv exJX exJY = true := by decide
+example : Json.eqv exJY exJZ = true := by decide
+example : Go.equalValue exX exY = .ok true := by decide
+example : Go.equalValue exY exZ = .ok true := by decide
+example : Go.equalValue exX exZ = .ok true := by decide
+
+/-- `equal_iff` applied -/
+example : Go.equalValue exX exY = .ok (Json.eqv exJX exJY) := equal_iff exX exY exJX exJY rfl rfl
+/-- `eqv_refl`, `eqv_symm`, `eqv_trans` applied -/
+example : Json.eqv exJX exJX = true := eqv_refl exJX (by decide)
+example : Json.eqv exJX exJY = Json.eqv exJY exJX := eqv_symm exJX exJY (by decide) (by decide)
+example : Json.eqv exJX exJZ = true :=
+  eqv_trans exJX exJY exJZ (by decide) (by decide) (by decide) (by decide) (by decide)
+/-- `equal_refl`, `equal_symm`, `equal_trans` applied -/
+example : Go.equalValue exX exX = .ok true := equal_refl exX exJX rfl (by decide)
+example : Go.equalValue exX exY = Go.equalValue exY exX :=
+  equal_symm exX exY exJX exJY rfl rfl (by decide) (by decide)
+example : Go.equalValue exX exZ = .ok true :=
+  equal_trans exX exY exZ exJX exJY exJZ rfl rfl rfl (by decide) (by decide) (by decide)
+    (by decide) (by decide)
+
+/-- why `WF` is assumed for reflexivity and symmetry: with a duplicate key the lookup-based comparison is
+    neither (objects of this shape cannot come out of a Go map, nor out of `encoding/json`). -/
+example :
+    Json.eqv (.obj [("a", .num 1), ("a", .num 1)]) (.obj [("a", .num 1), ("b", .num 2)]) = true ∧
+    Json.eqv (.obj [("a", .num 1), ("b", .num 2)]) (.obj [("a", .num 1), ("a", .num 1)]) = false ∧
+    Json.eqv (.obj [("a", .num 1), ("a", .num 2)]) (.obj [("a", .num 1), ("a", .num 2)]) = false := by
+  decide
 
 end JSV.C11
